@@ -4,8 +4,10 @@ import (
 	"encoding/json"
 	"fmt"
 	"math/rand"
+	"runtime"
 	"sort"
 	"strings"
+	"sync"
 	"time"
 
 	"github.com/honeycombio/refinery/generics"
@@ -26,6 +28,9 @@ type c32Input struct {
 	TTL  int64   `json:"ttl"`
 	T0   int64   `json:"t0"`
 	Ops  []c32Op `json:"ops"`
+	// Rounds > 0 selects the concurrent scenario: per round, an expired entry is re-added by one
+	// goroutine while another goroutine queries it; afterwards every query must see the entry.
+	Rounds int `json:"rounds,omitempty"`
 }
 
 func init() {
@@ -33,6 +38,14 @@ func init() {
 }
 
 func c32Gen(r *rand.Rand, tier string, i int) any {
+	if i%8 == 7 {
+		rounds := 1500
+		if tier == "thorough" {
+			rounds = 6000
+		}
+		return c32Input{Kind: []string{"set", "map"}[r.Intn(2)], T0: 1_000_000_000 + int64(r.Intn(1000)),
+			TTL: []int64{1, 5, 1000}[r.Intn(3)], Rounds: rounds}
+	}
 	in := c32Input{Kind: []string{"set", "map"}[r.Intn(2)], T0: 1_000_000_000 + int64(r.Intn(1000))}
 	in.TTL = []int64{0, 1, 5, 10, 1000, 10_000_000_000}[r.Intn(6)]
 	nops := 3 + r.Intn(18)
@@ -92,6 +105,9 @@ func c32Run(raw json.RawMessage) (Case, error) {
 	var in c32Input
 	if err := json.Unmarshal(raw, &in); err != nil {
 		return Case{}, err
+	}
+	if in.Rounds > 0 {
+		return c32RunRace(in)
 	}
 	clock := clockwork.NewFakeClockAt(time.Unix(0, in.T0))
 	ttl := time.Duration(in.TTL)
@@ -214,7 +230,7 @@ func c32Run(raw json.RawMessage) (Case, error) {
 
 func c32Shrink(raw json.RawMessage) []json.RawMessage {
 	var in c32Input
-	if json.Unmarshal(raw, &in) != nil {
+	if json.Unmarshal(raw, &in) != nil || in.Rounds > 0 {
 		return nil
 	}
 	var out []json.RawMessage
@@ -225,4 +241,93 @@ func c32Shrink(raw json.RawMessage) []json.RawMessage {
 		out = append(out, b)
 	}
 	return out
+}
+
+// c32RunRace: Add/Set(k); advance past the expiry; then Add/Set(k) again concurrently with queries of k.
+// Whatever the interleaving, the re-add happened, so afterwards (same instant) every query must see k.
+// The emitted case is the sequential history Put; Advance; Put; Get; Keys; Len with the observations made
+// AFTER the concurrent phase of the first deviating round (or of the last round when none deviates).
+func c32RunRace(in c32Input) (Case, error) {
+	const k = uint64(1)
+	ttl := time.Duration(in.TTL)
+	var obs []string
+	bad := -1
+	for round := 0; round < in.Rounds; round++ {
+		clock := clockwork.NewFakeClockAt(time.Unix(0, in.T0))
+		var set *generics.SetWithTTL[uint64]
+		var mp *generics.MapWithTTL[uint64, uint64]
+		if in.Kind == "set" {
+			set = generics.NewSetWithTTL[uint64](ttl)
+			set.Clock = clock
+			set.Add(k)
+		} else {
+			mp = generics.NewMapWithTTL[uint64, uint64](ttl, nil)
+			mp.Clock = clock
+			mp.Set(k, 7)
+		}
+		clock.Advance(ttl + 1)
+		start := make(chan struct{})
+		var wg sync.WaitGroup
+		wg.Add(2)
+		go func() {
+			defer wg.Done()
+			<-start
+			for j := 0; j < round%7; j++ {
+				runtime.Gosched()
+			}
+			if set != nil {
+				set.Add(k)
+			} else {
+				mp.Set(k, 7)
+			}
+		}()
+		go func() {
+			defer wg.Done()
+			<-start
+			for j := 0; j < 6; j++ {
+				if set != nil {
+					set.Contains(k)
+				} else {
+					mp.Get(k)
+				}
+			}
+		}()
+		close(start)
+		wg.Wait()
+		var got, keys, n string
+		if set != nil {
+			if set.Contains(k) {
+				got = cq.App("OGet", cq.Some(cq.N(0)))
+			} else {
+				got = cq.App("OGet", cq.None())
+			}
+			keys = cq.App("OKeys", cq.ListN(set.Members()))
+			n = cq.App("OLen", cq.N(uint64(set.Length())))
+		} else {
+			if v, ok := mp.Get(k); ok {
+				got = cq.App("OGet", cq.Some(cq.N(v)))
+			} else {
+				got = cq.App("OGet", cq.None())
+			}
+			keys = cq.App("OKeys", cq.ListN(mp.SortedKeys()))
+			n = cq.App("OLen", cq.N(uint64(mp.Length())))
+		}
+		obs = []string{"ONone", "ONone", "ONone", got, keys, n}
+		if !strings.Contains(got, "Some") || !strings.Contains(n, "1%N") {
+			bad = round
+			break
+		}
+	}
+	v := uint64(7)
+	if in.Kind == "set" {
+		v = 0
+	}
+	ops := []string{cq.App("Put", cq.N(k), cq.N(v)), cq.App("Advance", cq.Z(in.TTL+1)), cq.App("Put", cq.N(k), cq.N(v)),
+		cq.App("Get", cq.N(k)), "Keys", "Len"}
+	coq := fmt.Sprintf("{| c_ttl := %s; c_t0 := %s; c_ops := %s; c_obs := %s |}",
+		cq.Z(in.TTL), cq.Z(in.T0), cq.List(ops), cq.List(obs))
+	return Case{Coq: coq, Key: fmt.Sprintf("race|%s|%d|%d", in.Kind, in.TTL, in.Rounds), Nontriv: true,
+		Tags: []string{"kind:" + in.Kind, "concurrent-readd-vs-query"},
+		Summary: map[string]any{"kind": in.Kind, "ttl": in.TTL, "rounds": in.Rounds, "first_deviating_round": bad,
+			"history": []string{"Put k", "Advance ttl+1", "Put k  ||  6 x Get k   (concurrently)", "Get k -> " + obs[3], "Keys -> " + obs[4], "Len -> " + obs[5]}}}, nil
 }
